@@ -1,5 +1,24 @@
 import Driver.Proto
-import Driver.SJoy
+import Driver.SC01
+import Driver.SC02
+import Driver.SC03
+import Driver.SC04
+import Driver.SC05
+import Driver.SC06
+import Driver.SC07
+import Driver.SC08
+import Driver.SC09
+import Driver.SC10
+import Driver.SC11
+import Driver.SC12
+import Driver.SC13
+import Driver.SC14
+import Driver.SC15
+import Driver.SC16
+import Driver.SC17
+import Driver.SC18
+import Driver.SC19
+import Driver.SC20
 /-!
 `gbdriver`: replays correspondence lines on the Lean models and specs.
 Prints one line per non-ok case and a final `SUMMARY` line.
@@ -7,8 +26,28 @@ Prints one line per non-ok case and a final `SUMMARY` line.
 namespace Driver
 
 def dispatch (l : Line) : Verdict :=
-  match l.stream with
-  | "joy" => checkJoy l
+  -- stream names are "<pid>" or "<pid>.<sub>"
+  match (l.stream.splitOn ".").head! with
+  | "c01" => checkC01 l
+  | "c02" => checkC02 l
+  | "c03" => checkC03 l
+  | "c04" => checkC04 l
+  | "c05" => checkC05 l
+  | "c06" => checkC06 l
+  | "c07" => checkC07 l
+  | "c08" => checkC08 l
+  | "c09" => checkC09 l
+  | "c10" => checkC10 l
+  | "c11" => checkC11 l
+  | "c12" => checkC12 l
+  | "c13" => checkC13 l
+  | "c14" => checkC14 l
+  | "c15" => checkC15 l
+  | "c16" => checkC16 l
+  | "c17" => checkC17 l
+  | "c18" => checkC18 l
+  | "c19" => checkC19 l
+  | "c20" => checkC20 l
   | s => .bad s!"unknown stream {s}"
 
 structure Counts where
